@@ -314,4 +314,199 @@ theorem call6 (now : Nat) (draws : List Nat) (e : End (Pr tl)) (c : Call) (r : R
             simp at hp; subst hp
             exact Or.inr ⟨hne, tok, _, rfl⟩
 
+/-! ## deliveries -/
+
+theorem view_strip (p : Packet) : view (strip p) = view p := by
+  cases p <;> rfl
+
+/-- whatever the reader makes of a datagram of the history, it mentions the same ack and chunks -/
+theorem wireRead_view {p q : Packet} {alt : Alt} {hint : Option Bool} (h : wireRead tl p alt hint = some q) :
+    view q = view p := by
+  unfold wireRead at h
+  simp only at h
+  have hs : view (if tl = true then strip p else p) = view p := by
+    split
+    · exact view_strip p
+    · rfl
+  rw [← hs]
+  generalize (if tl = true then strip p else p) = p' at h
+  cases p' with
+  | connless d => simp only at h; injection h with h; rw [h]
+  | chunks ack tk rr n cs =>
+    simp only at h
+    split at h
+    · injection h with h; rw [h]
+    · cases h
+  | control ack tk ctl =>
+    cases ctl with
+    | close r =>
+      simp only at h
+      split at h
+      · injection h with h; rw [h]
+      · cases alt with
+        | exact => simp only at h; injection h with h; rw [h]
+        | error => cases h
+        | close tok' r' => simp only at h; injection h with h; rw [← h]; rfl
+    | keepAlive => simp only at h; split at h; (injection h with h; rw [h]); cases h
+    | connect => simp only at h; split at h; (injection h with h; rw [h]); cases h
+    | connectAccept => simp only at h; split at h; (injection h with h; rw [h]); cases h
+    | accept => simp only at h; split at h; (injection h with h; rw [h]); cases h
+
+theorem tokenAck_view {q : Packet} {tk : Option Nat} {ack : Nat} (h : q.tokenAck? = some (tk, ack)) :
+    ∃ cs, view q = some (ack, cs) := by
+  cases q <;> simp [Packet.tokenAck?] at h
+  · obtain ⟨_, rfl⟩ := h; exact ⟨_, rfl⟩
+  · obtain ⟨_, rfl⟩ := h; exact ⟨_, rfl⟩
+
+/-- `feed` after the token check and `ack_chunks` -/
+theorem feedBody6 {env : Env} {e peer : End (Pr tl)} {dg : Sent Packet} (hdg : dg ∈ peer.out)
+    (h : AInv Conn6.cfg (absEnd (Pr tl) core e) (absEnd (Pr tl) core peer)) {q : Packet} (hv : view q = view dg.pkt)
+    (h2 : ∀ ack cs, view dg.pkt = some (ack, cs) →
+      ∀ c ∈ cs, ∀ s r', c.vital = some (s, r') → e.dAbs + 1 < unwrap dg.nStamp s + 1024)
+    {token : Option Nat} {c1 : Conn} {out : Out} (hf : feedBody env e.conn token q = .ok (c1, out)) :
+    AInv Conn6.cfg (absEnd (Pr tl) core (e.book (ret c1 out false) [])) (absEnd (Pr tl) core peer) := by
+  have hnoop : ∀ (evs : List Event), (∀ ev ∈ evs, ∀ d v, ev ≠ .chunk d v) →
+      feedBody env e.conn token q = .ok (e.conn, { events := evs }) →
+      AInv Conn6.cfg (absEnd (Pr tl) core (e.book (ret c1 out false) [])) (absEnd (Pr tl) core peer) := by
+    intro evs hevs hq
+    rw [hq] at hf
+    injection hf with hf; injection hf with e1 e2; subst e1 e2
+    exact quiet6 h (Or.inl rfl) (by simp) hevs
+  have hpend : ∀ {st : State} , core ⟨st, e.conn.send⟩ = core e.conn →
+      tickAction env ⟨st, e.conn.send⟩ = .ok (c1, out) →
+      AInv Conn6.cfg (absEnd (Pr tl) core (e.book (ret c1 out false) [])) (absEnd (Pr tl) core peer) := by
+    intro st hcore ht
+    have he' := absEnd_conn (tl := tl) e ⟨st, e.conn.send⟩ hcore
+    rw [← he'] at h
+    exact tickAction6 (e := { e with conn := ⟨st, e.conn.send⟩ }) h rfl ht false
+  cases q with
+  | connless d => exact hnoop [.connless d] (by simp) (by simp [feedBody])
+  | chunks ack tk rr n cs =>
+    have hv' : view dg.pkt = some (ack, cs) := by rw [← hv]; rfl
+    have hrecv : ∀ (t : Option Nat) (o : Online), core e.conn = some o →
+        (match o.receive Conn6.cfg env.now e.conn.send rr cs with
+          | .error e => .error e
+          | .ok (o1, send1, fl, evs) =>
+            match emit (fl.map (ofFlushed t)) with
+            | .error e => .error e
+            | .ok ps => .ok (⟨.online t o1, send1⟩, { sent := ps, events := evs })) = Except.ok (c1, out) →
+        AInv Conn6.cfg (absEnd (Pr tl) core (e.book (ret c1 out false) [])) (absEnd (Pr tl) core peer) := by
+      intro t o hx hk
+      split at hk
+      · cases hk
+      · rename_i o1 send1 fl evs hrc
+        split at hk
+        · cases hk
+        · rename_i ps hem
+          injection hk with hk; injection hk with e1 e2; subst e1 e2
+          refine sim_recv Conn6.cfg_ok hdg h hv' hx hrc (h2 ack cs hv') (o2 := o1) rfl ?_ rfl
+          simp only [ret]
+          rw [emit_ok hem]
+          exact view_ofFlushed _ _
+    cases hst : e.conn.state with
+    | online t o => simp only [feedBody, hst] at hf; exact hrecv t o (core_online hst) hf
+    | pending t => simp only [feedBody, hst] at hf; exact hrecv t .new (by simp [core, hst]) hf
+    | unconnected => exact hnoop [] (by simp) (by simp [feedBody, hst])
+    | connecting => exact hnoop [] (by simp) (by simp [feedBody, hst])
+    | disconnected => exact hnoop [] (by simp) (by simp [feedBody, hst])
+  | control ack tk ctl =>
+    cases ctl with
+    | keepAlive => exact hnoop [] (by simp) (by simp [feedBody])
+    | accept => exact hnoop [] (by simp) (by simp [feedBody])
+    | close reason =>
+      simp only [feedBody] at hf
+      injection hf with hf; injection hf with e1 e2; subst e1 e2
+      exact quiet6 h (Or.inr (by simp [core])) (by simp) (by simp)
+    | connect =>
+      cases hst : e.conn.state with
+      | unconnected =>
+        simp only [feedBody, hst] at hf
+        cases token with
+        | none =>
+          simp only at hf
+          exact hpend (by simp [core, hst]) hf
+        | some t0 =>
+          simp only at hf
+          split at hf
+          · split at hf
+            · cases hf
+            · exact hpend (by simp [core, hst]) hf
+          · injection hf with hf; injection hf with e1 e2; subst e1 e2
+            exact quiet6 h (Or.inl rfl) (by simp) (by simp)
+      | online t o => exact hnoop [] (by simp) (by simp [feedBody, hst])
+      | pending t => exact hnoop [] (by simp) (by simp [feedBody, hst])
+      | connecting => exact hnoop [] (by simp) (by simp [feedBody, hst])
+      | disconnected => exact hnoop [] (by simp) (by simp [feedBody, hst])
+    | connectAccept =>
+      cases hst : e.conn.state with
+      | connecting =>
+        simp only [feedBody, hst] at hf
+        split at hf
+        · cases hf
+        · rename_i ps hsc
+          injection hf with hf; injection hf with e1 e2; subst e1 e2
+          obtain ⟨hne, tok, rfl⟩ := sendControl_ok hsc
+          refine quiet6 h (Or.inl (by simp [core, hst])) ?_ (by simp)
+          intro p hp
+          simp at hp; subst hp
+          exact Or.inr ⟨by simp [hst], tok, _, by rw [hst]; rfl⟩
+      | online t o => exact hnoop [] (by simp) (by simp [feedBody, hst])
+      | pending t => exact hnoop [] (by simp) (by simp [feedBody, hst])
+      | unconnected => exact hnoop [] (by simp) (by simp [feedBody, hst])
+      | disconnected => exact hnoop [] (by simp) (by simp [feedBody, hst])
+
+/-- **0.6, deliveries**: processing a datagram of the peer's history preserves the invariant (H2) -/
+theorem recv6 (now : Nat) (draws : List Nat) (e peer : End (Pr tl)) (dg : Sent Packet) (alt : Alt)
+    (r : Ret Conn Packet) (hdg : dg ∈ peer.out) (hr : P6.recv tl now draws e.conn dg.pkt alt = .ok r)
+    (h : AInv Conn6.cfg (absEnd (Pr tl) core e) (absEnd (Pr tl) core peer))
+    (h2 : ∀ ack cs, view dg.pkt = some (ack, cs) → e.nAbs < unwrap dg.dStamp ack + 1024 ∧
+      ∀ c ∈ cs, ∀ s r', c.vital = some (s, r') → e.dAbs + 1 < unwrap dg.nStamp s + 1024) :
+    AInv Conn6.cfg (absEnd (Pr tl) core (e.book r [])) (absEnd (Pr tl) core peer) := by
+  unfold P6.recv at hr
+  split at hr
+  · cases hr
+  · rename_i c1 out hf
+    injection hr with hr; subst hr
+    show AInv Conn6.cfg (absEnd (Pr tl) core (e.book (ret c1 out false) [])) (absEnd (Pr tl) core peer)
+    have h2c : ∀ ack cs, view dg.pkt = some (ack, cs) →
+        ∀ c ∈ cs, ∀ s r', c.vital = some (s, r') → e.dAbs + 1 < unwrap dg.nStamp s + 1024 :=
+      fun ack cs hv => (h2 ack cs hv).2
+    unfold feed at hf
+    cases hq : wireRead tl dg.pkt alt e.conn.hint with
+    | none =>
+      simp only [hq] at hf
+      injection hf with hf; injection hf with e1 e2; subst e1 e2
+      exact quiet6 h (Or.inl rfl) (by simp) (by simp)
+    | some q =>
+      have hv := wireRead_view hq
+      simp only [hq] at hf
+      cases hta : q.tokenAck? with
+      | none => simp only [hta] at hf; exact feedBody6 hdg h hv h2c hf
+      | some ta =>
+        obtain ⟨token, ack⟩ := ta
+        simp only [hta] at hf
+        split at hf
+        · injection hf with hf; injection hf with e1 e2; subst e1 e2
+          exact quiet6 h (Or.inl rfl) (by simp) (by simp)
+        · obtain ⟨cs, hvq⟩ := tokenAck_view hta
+          have hvd : view dg.pkt = some (ack, cs) := by rw [← hv]; exact hvq
+          cases hst : e.conn.state with
+          | online t o =>
+            simp only [hst] at hf
+            split at hf
+            · cases hf
+            · rename_i o1 hfa
+              have h1 := sim_ack hdg h (P := Pr tl) (core := core) hvd (core_online hst) hfa (h2 ack cs hvd).1
+                { e.conn with state := .online t o1 } rfl
+              exact feedBody6 (e := { e with conn := { e.conn with state := .online t o1 } }) hdg h1 hv h2c hf
+          | unconnected => simp only [hst] at hf; exact feedBody6 hdg h hv h2c hf
+          | connecting => simp only [hst] at hf; exact feedBody6 hdg h hv h2c hf
+          | pending t => simp only [hst] at hf; exact feedBody6 hdg h hv h2c hf
+          | disconnected => simp only [hst] at hf; exact feedBody6 hdg h hv h2c hf
+
+theorem sim6 (tl : Bool) : Sim (proto6 tl) core Conn6.cfg where
+  init := rfl
+  call := fun now draws e c r y hr h hh1 => call6 now draws e c r y hr h hh1
+  recv := fun now draws e peer dg alt r hdg hr h h2 => recv6 now draws e peer dg alt r hdg hr h h2
+
 end Tw.NetSim.P6
